@@ -393,3 +393,65 @@ def r_zerofill(db, rep):
                         rep.viol("%s#%s-not-filled" % (g.qn, fmt_path(g, path).replace("this->", "")), g.nloc(newn),
                                  "%s allocates %s uninitialised and %s sets bits in it with %s, but %s: the untouched bits are indeterminate" % (
                                      g.qn, fmt_path(g, path), f.qn, callee_name(call), why), g.qn)
+
+
+# ---------------------------------------------------------------------------------------------------
+ALLOCFORM_EXCEPTIONS = {
+    # (record, field): reason
+    ("SSA", "_sa"): "assigned the malloc'd array returned by SuffixArray::sort; build_bwt free()s it and sets it to NULL before any "
+                    "delete[] can see a non-null value (the delete[] sites are behind `_sa != NULL`)",
+}
+
+
+def alloc_form(f, rhs):
+    r = strip(rhs)
+    if not isinstance(r, dict):
+        return None
+    if r["k"] == "CXXNewExpr":
+        return "new[]" if r.get("array") else "new"
+    if r["k"] == "CallExpr":
+        nm = callee_name(r)
+        if nm in ("malloc", "calloc", "realloc", "strdup"):
+            return "malloc"
+        if nm == "loadValue" and len(r.get("args", [])) == 2:
+            return "new[]"
+    if const_value(r) == 0:
+        return "null"
+    return "other"
+
+
+@rule("R-ALLOCFORM", 40, "every pointer field is released with the form that matches how it is allocated (new/delete, new[]/delete[], malloc/free)")
+def r_allocform(db, rep):
+    allocs = collections.defaultdict(set)
+    frees = collections.defaultdict(list)
+    for f in db.funcs.values():
+        if f.file.startswith("libcds/"):
+            continue
+        for lv, w in written_lvalues(f):
+            s = strip(lv)
+            if s["k"] == "MemberExpr" and s.get("mk") == "field" and w.get("op") == "=" and (f.type(s) or {}).get("kind") == "ptr":
+                allocs[field_key(f, s)].add(alloc_form(f, w["rhs"]))
+        for n in f.live_nodes():
+            if n["k"] == "CXXDeleteExpr":
+                s = strip(n["sub"])
+                if s["k"] == "MemberExpr" and s.get("mk") == "field":
+                    frees[field_key(f, s)].append(("delete[]" if n.get("array") else "delete", f, n))
+            elif n["k"] == "CallExpr" and callee_name(n) == "free" and n.get("args"):
+                s = strip(n["args"][0])
+                if s["k"] == "MemberExpr" and s.get("mk") == "field":
+                    frees[field_key(f, s)].append(("free", f, n))
+    match = {"new": "delete", "new[]": "delete[]", "malloc": "free"}
+    for key in sorted(frees, key=str):
+        forms = allocs.get(key, set()) - {"null", None}
+        for form, f, n in frees[key]:
+            rep.visit(f)
+            rep.inst(f.nloc(n), "%s::%s released with %s; allocated as %s" % (key[0], key[1], form, ",".join(sorted(forms)) or "?"))
+            rep.ob()
+            if not forms or "other" in forms:
+                continue       # allocated elsewhere / through a call: not decided
+            if key in ALLOCFORM_EXCEPTIONS:
+                continue
+            if not any(match.get(a) == form for a in forms):
+                rep.viol("%s::%s#%s-vs-%s" % (key[0], key[1], "+".join(sorted(forms)), form), f.nloc(n),
+                         "%s releases %s::%s with %s, but the field is allocated with %s: undefined behaviour" % (
+                             f.qn, key[0], key[1], form, ", ".join(sorted(forms))), f.qn)
